@@ -86,6 +86,13 @@ def run(eng, R):
     R.ob("H-gof", "FitBase.goodness_of_fit", "is_diagonal(self.total_cov_mat)" in src and "_cost_function.goodness_of_fit(*[self._nexus.get(_node_name).value for _node_name in _cost_function.arg_names])" in src,
          (fb.file, fb.lineno), "FitBase.goodness_of_fit must evaluate the selected cost function's gof on the values of its own argument nodes")
 
+    # the pointwise twin may stand in for the covariance cost only for an exactly diagonal matrix (any tolerance drops small correlations from the gof)
+    isd = p.resolve_name(p.module("kafe2.fit.util"), "is_diagonal")
+    tol = [common.call_name(c) for c in ast.walk(isd.node) if isinstance(c, ast.Call) and common.call_name(c) in ("allclose", "isclose", "assert_allclose", "array_equiv")]
+    cmps = [type(o).__name__ for c in ast.walk(isd.node) if isinstance(c, ast.Compare) for o in c.ops]
+    R.ob("H-gof", "is_diagonal:exact", not tol and not any(o in ("Lt", "LtE", "Gt", "GtE") for o in cmps), (isd.file, isd.lineno),
+         "is_diagonal uses a tolerance (%s %s): for a covariance with small but non-zero correlations goodness_of_fit evaluates the pointwise chi2 and drops the correlations" % (tol, cmps))
+
     # ---- MultiFit overrides
     mg = get_func(p, "MultiFit", "goodness_of_fit")
     src = ast.unparse(mg.node)
@@ -93,6 +100,25 @@ def run(eng, R):
         and "if self._shared_error_nodes_initialized and _fit._cost_function.is_chi2:\n        continue" in src.replace("    ", " " * 4).replace("            continue", "        continue")
     R.ob("F4", "MultiFit.goodness_of_fit", "_gof_sum += _gof" in src and "for _fit in self._fits" in src and "_gof_sum += self._shared_cost_function.goodness_of_fit" in src and "self._shared_error_nodes_initialized and _fit._cost_function.is_chi2" in src,
          (mg.file, mg.lineno), "MultiFit.goodness_of_fit must sum the members' gof (chi2 members once through the shared cost when errors are shared)")
+    # constraint terms of the multi-fit gof: the multi fit's own constraints, and - for members whose residuals moved into the shared cost - the members' constraints
+    def adds_constraints(node, owner):
+        for lp in ast.walk(node):
+            if isinstance(lp, ast.For) and " ".join(ast.unparse(lp.iter).split()) == "%s.parameter_constraints" % owner and isinstance(lp.target, ast.Name):
+                for a in ast.walk(lp):
+                    if isinstance(a, ast.AugAssign) and isinstance(a.op, ast.Add) and " ".join(ast.unparse(a.value).split()) == "%s.cost(%s.parameter_values)" % (lp.target.id, owner):
+                        return True
+        return False
+
+    R.ob("H-gof", "MultiFit.goodness_of_fit:own constraints", adds_constraints(ast.Module(body=mg.node.body, type_ignores=[]), "self"), (mg.file, mg.lineno),
+         "the goodness of fit of a MultiFit must contain the cost of the constraints added to the MultiFit (the cost, ndf and probability count them)")
+    skips = [i for i in ast.walk(mg.node) if isinstance(i, ast.If) and "_shared_error_nodes_initialized" in ast.unparse(i.test) and "is_chi2" in ast.unparse(i.test)
+             and i.body and isinstance(i.body[-1], ast.Continue)]
+    okc = len(skips) == 1
+    if okc:
+        lp = [l for l in ast.walk(mg.node) if isinstance(l, ast.For) and skips[0] in l.body]
+        okc = bool(lp) and isinstance(lp[0].target, ast.Name) and adds_constraints(ast.Module(body=skips[0].body, type_ignores=[]), lp[0].target.id)
+    R.ob("H-gof", "MultiFit.goodness_of_fit:member constraints with shared errors", okc, (mg.file, mg.lineno),
+         "members whose residuals are covered by the shared cost function must still contribute the cost of their own parameter constraints")
     cs = get_func(p, "MultiCostFunction", "cost_sum")
     R.ob("F4", "MultiCostFunction.cost_sum", ast.unparse(cs.node.body[-1]).replace(" ", "") in ("returnnp.sum(single_costs)", "returnsum(single_costs)"), (cs.file, cs.lineno), "the multi-fit cost must be the plain sum of the member costs")
     mc = get_func(p, "MultiFit", "chi2_probability")
